@@ -8,20 +8,20 @@ def block(s, name, text):
     return s[:i] + "\n" + text + "\n" + s[j:]
 def main():
     rows = ["| id | TLC states | TLC transitions | impl traces judged by TLC | real-code evaluations | distinct non-trivial | known groups hit | wall s |", "|---|---|---|---|---|---|---|---|"]
-    for f in sorted(glob.glob(os.path.join(HERE, "evidence", "C*.json"))):
+    for f in sorted(glob.glob(os.path.join(HERE, "evidence", "*.json"))):
         e = json.load(open(f)); c = e["coverage"]
         rows.append("| %s | %s | %s | %s | %s | %s | %s | %s |" % (e["property_id"], c.get("states"), c.get("transitions"), c.get("traces_validated_against_impl"),
                     c.get("evaluations"), c.get("distinct_nontrivial"), len(c.get("known_findings_hit", [])), e["wall_s"]))
     k = {"known": [], "fixed": []}
     for p in [os.path.join(HERE, "known_findings.json")] + sorted(glob.glob(os.path.join(HERE, "known_findings.d", "*.json"))):
         o = json.load(open(p)); k["known"] += o.get("known", []); k["fixed"] += o.get("fixed", [])
-    fx = collections.Counter(re.search(r"property=(C\d+)", f).group(1) for f in k["fixed"])
+    fx = collections.Counter(re.search(r"property=([A-Z]+\d*)", f).group(1) for f in k["fixed"])
     kn = collections.Counter(e["property"] for e in k["known"])
     roots = collections.defaultdict(set)
     for e in k["known"]:
         roots[e["property"]].add(str(e.get("note", ""))[:80])
     frows = ["| id | repaired (`fix:` commits) | known-finding entries | distinct root-cause notes |", "|---|---|---|---|"]
-    for pid in ["C%02d" % i for i in range(1, 21)]:
+    for pid in ["C%02d" % i for i in range(1, 21)] + sorted({x for x in list(fx) + list(kn) if not x.startswith("C")}):
         frows.append("| %s | %d | %d | %d |" % (pid, fx.get(pid, 0), kn.get(pid, 0), len(roots.get(pid, ()))))
     frows.append("| total | %d | %d | |" % (sum(fx.values()), sum(kn.values())))
     p = os.path.join(HERE, "DESIGN.md"); s = open(p).read()
